@@ -42,6 +42,19 @@ pub fn spec(id: &str) -> Option<Spec> {
          assumptions: common_assumptions(),
          expected_probes: vec!["preempt", "steal", "shard_override"],
       },
+      "C10" => Spec {
+         id: "C10",
+         level: "exploration",
+         quick_cases: 10_000,
+         thorough_cases: 300_000,
+         rule: "One case = one ascent_par! program whose binary relation is tagged #[ds(eqrel)] (concurrent provider ceqrel_ind: one mutex-protected union-find written by all workers, frozen old/combined pair read by all workers), one input, one run under a seeded schedule; compared on every plain relation with the explicit-closure twin (reflexive/symmetric/transitive rules written out) evaluated serially. About 15% of the cases run the serial eqrel provider instead (baseline configuration, no schedule; never counted as non-trivial). Non-trivial/distinct as for C02.",
+         assumptions: {
+            let mut a = common_assumptions();
+            a.push("claimed for the parallel binary form only; the serial binary form runs as baseline, the ternary form (serial only) and fully-bound reads of a parallel eqrel (rejected by the parallel front end) are out of reach");
+            a
+         },
+         expected_probes: vec!["preempt", "steal"],
+      },
       "C13" => Spec {
          id: "C13",
          level: "exploration",
@@ -63,6 +76,19 @@ pub fn spec(id: &str) -> Option<Spec> {
             a
          },
          expected_probes: vec!["deadline_strike"],
+      },
+      "C19" => Spec {
+         id: "C19",
+         level: "exploration",
+         quick_cases: 20_000,
+         thorough_cases: 600_000,
+         rule: "One case = one index type (CRelIndex, CRelFullIndex, CLatIndex, CRelNoIndex; ~15% the serial types as baseline) driven as a (new, delta, total) triple through 2-5 rounds of: owner-side inserts through the &mut path, 1-4 simulated workers inserting / insert-if-absent concurrently into `new` (few keys, unique values), optional freeze+read-back of `new`, merge_delta_to_total_new_to_delta, freeze, reads of present and absent keys through index_get / c_index_get / iter_all / c_iter_all / contains_key / len_estimate / is_empty and the RelIndexCombined view (the c_ variants through the real rayon plumbing on the simulated pool), unfreeze. Checked operation by operation against a sequential multimap model plus a per-key first-writer-wins linearizability check over invoke/return events stamped with the simulator's global event sequence number. Non-trivial/distinct as for C02.",
+         assumptions: {
+            let mut a = common_assumptions();
+            a.push("keys never collide across new/delta/total for the full index and values are unique, as in generated code; what the index types do outside that contract is not judged");
+            a
+         },
+         expected_probes: vec!["preempt", "steal"],
       },
       "C20" => Spec {
          id: "C20",
